@@ -20,6 +20,12 @@
 // single-document API, other bulk requests; accepted and rejected ones), which share
 // process-wide pools with HandleBulkBody: what they leave behind must not change what the
 // bulk request acknowledges and stores (model: SigM.BulkPool).
+// "alias": scenarios of one process in which index names are ALIASES (PUT /<index>/_alias/<alias>
+// through the real handler): alias defined before the first write of its index (no segment
+// store yet), after it, alias and index name mixed in one body, two aliases of one index, a
+// name first used as an index and later made an alias; every created document must be found
+// by a query on the index AND by a query through every alias of it, and nothing may be filed
+// under an alias name (model: SigM.BulkAlias, the history is replayed inside Coq).
 package main
 
 import (
@@ -42,6 +48,7 @@ import (
 	"github.com/siglens/siglens/pkg/otlp"
 	"github.com/siglens/siglens/pkg/segment/memory/limit"
 	"github.com/siglens/siglens/pkg/segment/query"
+	"github.com/siglens/siglens/pkg/segment/structs"
 	sutils "github.com/siglens/siglens/pkg/segment/utils"
 	"github.com/siglens/siglens/pkg/segment/writer"
 	serverutils "github.com/siglens/siglens/pkg/server/utils"
@@ -218,6 +225,75 @@ func freshIdx(k int) int {
 	return 40 + k
 }
 
+// ---------- aliases (stream "alias") ----------
+//
+// scenario k owns the index numbers 100+10k .. 100+10k+5 with fresh names:
+//
+//	+0 r0, +1 r1  indexes
+//	+2 l0, +3 m0  aliases of r0        +4 l1  alias of r1
+//	+5 d0         a name that may first be written as an index of its own and is later made an alias of r0
+//
+// aliasOf is the relation the scenario will establish; aliasDefined says whether the PUT _alias request
+// was already served in this process (before that the name is an ordinary index name).
+var aliasOf = map[int]int{}
+var aliasDefined = map[int]bool{}
+var scnNames = map[int][]int{}
+
+func scnIdx(k, j int) int { return 100 + 10*k + j }
+
+func newScenario(k int) int {
+	for j, n := range []string{"r0", "r1", "l0", "m0", "l1", "d0"} {
+		indexNames[scnIdx(k, j)] = fmt.Sprintf("c15s%d%s", k, n)
+		scnNames[k+1] = append(scnNames[k+1], scnIdx(k, j))
+	}
+	aliasOf[scnIdx(k, 2)], aliasOf[scnIdx(k, 3)], aliasOf[scnIdx(k, 5)] = scnIdx(k, 0), scnIdx(k, 0), scnIdx(k, 0)
+	aliasOf[scnIdx(k, 4)] = scnIdx(k, 1)
+	return k + 1
+}
+
+// the index a name stands for right now (vtable.IsAlias as the harness's own bookkeeping)
+func resolveIdx(ix int) int {
+	if aliasDefined[ix] {
+		return aliasOf[ix]
+	}
+	return ix
+}
+
+// PUT /<index>/_alias/<alias> through the real handler
+func putAlias(index, alias int) string {
+	ctx := &fasthttp.RequestCtx{}
+	ctx.Request.Header.SetMethod("PUT")
+	ctx.SetUserValue("indexName", indexNames[index])
+	ctx.SetUserValue("aliasName", indexNames[alias])
+	eswriter.ProcessPutAliasesRequest(ctx, 0)
+	if st := ctx.Response.StatusCode(); st != 200 {
+		return fmt.Sprintf("PUT /%s/_alias/%s answered %d: %s", indexNames[index], indexNames[alias], st, ctx.Response.Body())
+	}
+	if is, target := vtable.IsAlias(indexNames[alias], 0); !is || target != indexNames[index] {
+		return fmt.Sprintf("PUT /%s/_alias/%s acknowledged, but IsAlias says (%v, %q)", indexNames[index], indexNames[alias], is, target)
+	}
+	return ""
+}
+
+// a finished scenario's names are never used again: its segment stores (tens of MB of buffers each) are
+// removed, whatever table name they were filed under
+func dropScenario(scn int) {
+	for _, ix := range scnNames[scn] {
+		writer.DeleteVirtualTableSegStore(indexNames[ix])
+	}
+}
+
+// records held by the unrotated segment stores, per VirtualTableName
+func tableCounts() map[string]uint64 {
+	m := map[string]*structs.VtableCounts{}
+	writer.GetUnrotatedVTableCountsForAll(0, m)
+	out := map[string]uint64{}
+	for k, v := range m {
+		out[k] = v.RecordCount
+	}
+	return out
+}
+
 // timestamps of {"timestamp":T} documents: tsOnlyBase + evalNo*100 + line number (the ordinary lines use 1700000000000+n)
 const tsOnlyBase = 1710000000000
 
@@ -381,6 +457,8 @@ type bodyCase struct {
 	FinalNL  bool       `json:"final_newline"`
 	BadIndex []int      `json:"unstorable_indexes,omitempty"`
 	Prelude  []preReq   `json:"earlier_requests,omitempty"` // served (after the pools were emptied) before the bulk request
+	Scn      int        `json:"alias_scenario,omitempty"`   // stream "alias": scenario number (0 = none); the steps of a scenario share its names
+	AliasOps [][2]int   `json:"-"`                          // (alias, index): PUT _alias requests served before this request (once per process)
 }
 
 // ---------- requests of the other ingest entry points ----------
@@ -585,6 +663,8 @@ type observation struct {
 	AllFailed bool
 	Found     [][2]int // (index number, line number) per search hit
 	Stray     []string
+	Names     []int    // alias scenarios: the names searched
+	Tables    [][2]int // alias scenarios: (name, growth of the record count of the unrotated stores filed under that name)
 }
 
 type failure struct{ class, detail string }
@@ -600,11 +680,34 @@ func describe(c bodyCase, texts []string) interface{} {
 		ls = append(ls, t)
 	}
 	d := map[string]interface{}{"stream": c.Stream, "body_lines": ls, "final_newline": c.FinalNL, "shapes": c.Lines}
+	if c.Scn != 0 {
+		names := map[string]string{}
+		for _, ix := range scnNames[c.Scn] {
+			names[indexNames[ix]] = "index"
+			if t, ok := aliasOf[ix]; ok {
+				names[indexNames[ix]] = "becomes an alias of " + indexNames[t] + " when its PUT _alias request is served"
+			}
+		}
+		d["alias_scenario"] = map[string]interface{}{"names": names, "earlier_requests_of_the_scenario": scnLog[c.Scn],
+			"alias_definitions_before_this_request": aliasOpsText(c.AliasOps),
+			"note": "one process; every request is followed by a flush and by queries on every name of the scenario; PUT /<index>/_alias/<alias> through ProcessPutAliasesRequest"}
+	}
 	if len(c.Prelude) > 0 {
 		d["earlier_requests_of_the_process"] = c.Prelude
 		d["note"] = "the process-wide pools are emptied (two garbage collections), the earlier requests are served in order, then the bulk body"
 	}
 	return d
+}
+
+// what was served in the scenario before the request at hand (for the replay)
+var scnLog = map[int][]interface{}{}
+
+func aliasOpsText(ops [][2]int) []string {
+	out := []string{}
+	for _, op := range ops {
+		out = append(out, fmt.Sprintf("PUT /%s/_alias/%s", indexNames[op[1]], indexNames[op[0]]))
+	}
+	return out
 }
 
 func statusOf(item interface{}) int {
@@ -639,6 +742,20 @@ func evaluateCore(c bodyCase) (obs observation, fails []failure, texts []string,
 		body += "\n"
 	}
 	acts := grammar(c.Lines, lens, c.FinalNL)
+
+	// ---- alias scenarios: the alias definitions that precede this request, the stores' record counts ----
+	for _, op := range c.AliasOps {
+		if !aliasDefined[op[0]] {
+			if herr = putAlias(op[1], op[0]); herr != "" {
+				return
+			}
+			aliasDefined[op[0]] = true
+		}
+	}
+	var before map[string]uint64
+	if c.Scn != 0 {
+		before = tableCounts()
+	}
 
 	// ---- the real HandleBulkBody ----
 	var respJS []byte
@@ -680,6 +797,13 @@ func evaluateCore(c bodyCase) (obs observation, fails []failure, texts []string,
 			used[l.Idx] = true
 		}
 	}
+	if c.Scn != 0 { // every name of the scenario is searched: index names and aliases
+		after := tableCounts()
+		for _, ix := range scnNames[c.Scn] {
+			used[ix] = true
+			obs.Tables = append(obs.Tables, [2]int{ix, int(after[indexNames[ix]]) - int(before[indexNames[ix]])})
+		}
+	}
 	var idxs []int
 	for i := range used {
 		idxs = append(idxs, i)
@@ -689,6 +813,9 @@ func evaluateCore(c bodyCase) (obs observation, fails []failure, texts []string,
 	for _, ix := range idxs {
 		if unsafeIdx(ix) { // no such index can exist; anything stored anywhere shows in the search over "*"
 			continue
+		}
+		if c.Scn != 0 {
+			obs.Names = append(obs.Names, ix)
 		}
 		hits, err := searchRange(indexNames[ix], "g="+tag, 1600000000000, 1700000000999)
 		if err != nil {
@@ -706,7 +833,9 @@ func evaluateCore(c bodyCase) (obs observation, fails []failure, texts []string,
 				continue
 			}
 			obs.Found = append(obs.Found, [2]int{ix, n})
-			total++
+			if !aliasDefined[ix] { // a hit through an alias is the same record seen again
+				total++
+			}
 			fails = append(fails, contentMismatch(n, texts[n], h)...)
 		}
 	}
@@ -787,6 +916,25 @@ func evaluateCore(c bodyCase) (obs observation, fails []failure, texts []string,
 		return n
 	}
 	claimed := map[[2]int]bool{}
+	// the names searched in this case that stand for the same index as ix (ix itself first): the index
+	// name and every alias of it; outside the alias scenarios just ix
+	views := func(ix int) []int {
+		out := []int{ix}
+		if c.Scn != 0 {
+			for _, v := range scnNames[c.Scn] {
+				if v != ix && resolveIdx(v) == resolveIdx(ix) {
+					out = append(out, v)
+				}
+			}
+		}
+		return out
+	}
+	nameOf := func(ix int) string {
+		if aliasDefined[ix] {
+			return fmt.Sprintf("%s (alias of %s)", indexNames[ix], indexNames[aliasOf[ix]])
+		}
+		return indexNames[ix] + " (index)"
+	}
 	// one item per action, in request order
 	if len(obs.Items) != len(acts) {
 		var last action
@@ -804,7 +952,9 @@ func evaluateCore(c bodyCase) (obs observation, fails []failure, texts []string,
 	overBefore := false
 	for i, a := range acts {
 		if a.HasDoc && a.Kind == "write" {
-			claimed[[2]int{a.Idx, a.DLine}] = true
+			for _, v := range views(a.Idx) {
+				claimed[[2]int{v, a.DLine}] = true
+			}
 		}
 		if i >= len(obs.Items) {
 			if a.HasDoc && a.Kind == "write" && count(a.Idx, a.DLine) > 0 {
@@ -830,13 +980,32 @@ func evaluateCore(c bodyCase) (obs observation, fails []failure, texts []string,
 			case count(a.Idx, a.DLine) == 0 && a.Idx >= 40 && strings.HasSuffix(c.Stream, "/step2"):
 				fails = append(fails, failure{"bulk_created_after_fieldless_first_block_not_searchable",
 					fmt.Sprintf("item %d is 201, errors=%v, but document line %d is not found in %s after the flush: the first block of that index's segment held only documents without any field", i, obs.Errors, a.DLine, indexNames[a.Idx])})
-			case count(a.Idx, a.DLine) == 0:
+			case count(a.Idx, a.DLine) == 0 && !aliasDefined[a.Idx]:
 				fails = append(fails, failure{"bulk_created_but_not_searchable", fmt.Sprintf("item %d is 201 but document line %d is not found in %s after the flush", i, a.DLine, indexNames[a.Idx])})
 			case count(a.Idx, a.DLine) > 1:
 				fails = append(fails, failure{"bulk_created_but_duplicated", fmt.Sprintf("item %d is 201 and document line %d is found %d times", i, a.DLine, count(a.Idx, a.DLine))})
+			default:
+				// created means searchable under the index AND through every alias of it, whichever name the action used
+				for _, v := range views(a.Idx) {
+					switch n := count(v, a.DLine); {
+					case n == 0 && aliasDefined[a.Idx]:
+						fails = append(fails, failure{"bulk_created_through_alias_not_searchable",
+							fmt.Sprintf("item %d is 201 (errors=%v) for a write into %s, but document line %d is not found by a query on %s after the flush", i, obs.Errors, nameOf(a.Idx), a.DLine, nameOf(v))})
+					case n == 0:
+						fails = append(fails, failure{"bulk_created_not_searchable_through_alias",
+							fmt.Sprintf("item %d is 201 for a write into %s and document line %d is found there, but not by a query on %s", i, nameOf(a.Idx), a.DLine, nameOf(v))})
+					case n > 1:
+						fails = append(fails, failure{"bulk_created_but_duplicated", fmt.Sprintf("item %d is 201 and document line %d is found %d times by a query on %s", i, a.DLine, n, nameOf(v))})
+					}
+				}
 			}
-		} else if a.HasDoc && a.Kind == "write" && count(a.Idx, a.DLine) > 0 {
-			fails = append(fails, failure{"bulk_failed_item_but_stored", fmt.Sprintf("item %d is %d but document line %d is searchable", i, st, a.DLine)})
+		} else if a.HasDoc && a.Kind == "write" {
+			for _, v := range views(a.Idx) {
+				if count(v, a.DLine) > 0 {
+					fails = append(fails, failure{"bulk_failed_item_but_stored", fmt.Sprintf("item %d is %d but document line %d is searchable in %s", i, st, a.DLine, indexNames[v])})
+					break
+				}
+			}
 		}
 		// a bad action affects only its own item: item i is what action i deserves on its own
 		want := expectedStatus(a)
@@ -863,6 +1032,13 @@ func evaluateCore(c bodyCase) (obs observation, fails []failure, texts []string,
 	}
 	for _, s := range obs.Stray {
 		fails = append(fails, failure{"bulk_unexpected_document", "stray hit: " + s})
+	}
+	// an alias is only a name for queries and requests: no segment store may be filed under it
+	for _, t := range obs.Tables {
+		if aliasDefined[t[0]] && t[1] != 0 {
+			fails = append(fails, failure{"bulk_documents_filed_under_alias_name",
+				fmt.Sprintf("the request added %d records to segment stores whose table name is %s; queries expand the alias to %s and never read them", t[1], nameOf(t[0]), indexNames[aliasOf[t[0]]])})
+		}
 	}
 	// errors iff some item failed
 	if obs.Errors != anyFailed {
@@ -1202,6 +1378,107 @@ func cornerAfter() []bodyCase {
 	return out
 }
 
+// stream alias: one scenario = 2-4 requests of one process over the scenario's fresh names.  A body is
+// made of ordinary action groups of the grammar whose index is redirected (60 %) to a name of the
+// step's pool, plus one well-formed write for every name in must, in random order.
+func genAliasBody(r *vhlib.Rng, scn int, pool, must []int) bodyCase {
+	c := bodyCase{Stream: "alias", Scn: scn, FinalNL: r.Chance(75)}
+	redirect := func(ls []lineSpec) []lineSpec {
+		for i := range ls {
+			if ls[i].Idx >= 1 && ls[i].Idx <= 4 && r.Chance(60) {
+				ls[i].Idx = vhlib.Pick(r, pool)
+			}
+		}
+		return ls
+	}
+	var groups [][]lineSpec
+	for _, ix := range must {
+		v := "index"
+		if r.Chance(30) {
+			v = "create"
+		}
+		groups = append(groups, []lineSpec{mk(v, ix), goodDoc(r)})
+	}
+	nIdx := r.Range(1, 2)
+	for i := r.Range(0, 4); i > 0; i-- {
+		groups = append(groups, redirect(someAction(r, nIdx, true)))
+	}
+	for i := len(groups) - 1; i > 0; i-- { // Fisher-Yates
+		j := r.Intn(i + 1)
+		groups[i], groups[j] = groups[j], groups[i]
+	}
+	for _, g := range groups {
+		c.Lines = append(c.Lines, g...)
+	}
+	if r.Chance(60) || len(c.Lines) == 0 {
+		c.Lines = append(c.Lines, redirect(closing(r, nIdx))...)
+	}
+	return c
+}
+
+func genAliasScenario(r *vhlib.Rng, k int) []bodyCase {
+	scn := newScenario(k)
+	r0, r1, l0, m0, l1, d0 := scnIdx(k, 0), scnIdx(k, 1), scnIdx(k, 2), scnIdx(k, 3), scnIdx(k, 4), scnIdx(k, 5)
+	op := func(a int) [2]int { return [2]int{a, aliasOf[a]} }
+	step := func(ops [][2]int, pool, must []int) bodyCase {
+		c := genAliasBody(r, scn, pool, must)
+		c.AliasOps = ops
+		return c
+	}
+	kind := k % 6
+	if k >= 12 {
+		kind = r.Intn(7)
+	}
+	switch kind {
+	case 0: // the alias exists before the first write of its index, and the first write goes through it
+		return []bodyCase{
+			step([][2]int{op(l0)}, []int{l0}, []int{l0}),
+			step(nil, []int{l0, r0}, []int{r0}),
+			step(nil, []int{l0, r0}, []int{l0})}
+	case 1: // the index is written first (its store exists), then the alias is defined and used
+		return []bodyCase{
+			step(nil, []int{r0, r1}, []int{r0}),
+			step([][2]int{op(l0)}, []int{l0, r0}, []int{l0}),
+			step(nil, []int{l0, r0}, []int{r0, l0})}
+	case 2: // aliases and index names mixed in the first body; two aliases of one index
+		return []bodyCase{
+			step([][2]int{op(l0), op(m0), op(l1)}, []int{l0, m0, r0, l1, r1}, []int{l0, r0, m0, l1}),
+			step(nil, []int{l0, m0, r0, l1, r1}, []int{r0, r1})}
+	case 3: // a name is an index of its own first and becomes an alias of another index later
+		return []bodyCase{
+			step(nil, []int{d0, r1}, []int{d0}),
+			step([][2]int{op(d0)}, []int{d0, r1}, []int{d0}),
+			step([][2]int{op(l0)}, []int{d0, r0, l0}, []int{r0})}
+	case 4: // one body, first write of the index, through two different aliases only
+		return []bodyCase{
+			step([][2]int{op(l0), op(m0)}, []int{l0, m0}, []int{l0, m0}),
+			step([][2]int{op(l1)}, []int{l0, m0, r0, l1}, []int{l1, r0})}
+	case 5: // alias of one index, first write of ANOTHER index of the scenario in the same body
+		return []bodyCase{
+			step([][2]int{op(l1)}, []int{l1, r0}, []int{l1, r0}),
+			step([][2]int{op(l0)}, []int{l0, l1, r0, r1}, []int{l0, r1})}
+	}
+	// random: 2-4 requests; before each, some of the not yet defined aliases are defined
+	all := []int{r0, r1, l0, m0, l1, d0}
+	var out []bodyCase
+	defined := map[int]bool{}
+	for n := r.Range(2, 4); n > 0; n-- {
+		var ops [][2]int
+		for _, a := range []int{l0, m0, l1, d0} {
+			if !defined[a] && r.Chance(40) {
+				ops = append(ops, op(a))
+				defined[a] = true
+			}
+		}
+		var must []int
+		for i := r.Range(1, 3); i > 0; i-- {
+			must = append(must, vhlib.Pick(r, all))
+		}
+		out = append(out, step(ops, all, must))
+	}
+	return out
+}
+
 // hand-written corner bodies, always run first
 func corner() []bodyCase {
 	ix, doc := mk("index", 1), mk("doc", 0)
@@ -1240,9 +1517,30 @@ func corner() []bodyCase {
 // ---------- Coq rendering ----------
 
 func coqCase(c bodyCase, lens []int, o observation) string {
+	bad, lines, obs := coqParts(c, lens, o, 0)
+	return fmt.Sprintf("(%s, %s, %s)", bad, lines, obs)
+}
+
+// alias histories: the identity of a line is idBase + its line number (unique over the history)
+func coqAliasStep(c bodyCase, lens []int, o observation, idBase int) string {
+	bad, lines, obs := coqParts(c, lens, o, idBase)
+	var names, tables []string
+	for _, n := range o.Names {
+		names = append(names, fmt.Sprint(n))
+	}
+	for _, t := range o.Tables {
+		if t[1] < 0 {
+			t[1] = 999999 // a shrinking store: no model state explains it
+		}
+		tables = append(tables, fmt.Sprintf("(%d, %d)", t[0], t[1]))
+	}
+	return fmt.Sprintf("SBulk %s %s %s (%s) %s", bad, lines, vhlib.CoqList(names), obs, vhlib.CoqList(tables))
+}
+
+func coqParts(c bodyCase, lens []int, o observation, idBase int) (string, string, string) {
 	var ls []string
 	for i, l := range c.Lines {
-		ls = append(ls, fmt.Sprintf("L %d %s %d %s %s %d", lens[i], kindCoq[l.Act], l.Idx, vhlib.CoqBool(!unsafeIdx(l.Idx)), vhlib.CoqBool(l.Parses), i))
+		ls = append(ls, fmt.Sprintf("L %d %s %d %s %s %d", lens[i], kindCoq[l.Act], l.Idx, vhlib.CoqBool(!unsafeIdx(l.Idx)), vhlib.CoqBool(l.Parses), idBase+i))
 	}
 	if c.FinalNL {
 		ls = append(ls, "empty_line")
@@ -1260,9 +1558,9 @@ func coqCase(c bodyCase, lens []int, o observation) string {
 	fs := append([][2]int{}, o.Found...)
 	sort.Slice(fs, func(i, j int) bool { return fs[i][1] < fs[j][1] || (fs[i][1] == fs[j][1] && fs[i][0] < fs[j][0]) })
 	for _, f := range fs {
-		found = append(found, fmt.Sprintf("(%d, %d)", f[0], f[1]))
+		found = append(found, fmt.Sprintf("(%d, %d)", f[0], idBase+f[1]))
 	}
-	return fmt.Sprintf("(%s, %s, mkObs %s %s %d %s %s)", vhlib.CoqList(bad), vhlib.CoqList(ls),
+	return vhlib.CoqList(bad), vhlib.CoqList(ls), fmt.Sprintf("mkObs %s %s %d %s %s",
 		vhlib.CoqList(items), vhlib.CoqBool(o.Errors), o.Processed, vhlib.CoqBool(o.AllFailed), vhlib.CoqList(found))
 }
 
@@ -1366,9 +1664,12 @@ func main() {
 	rMain, rT, rO, rS, rU := rng.Fork(), rng.Fork(), rng.Fork(), rng.Fork(), rng.Fork()
 	rF, rFF := rng.Fork(), rng.Fork()
 	rA := rng.Fork()
+	rAl := rng.Fork()
 	nMain, nKnown, nUnsafe, nFieldless, nFresh, nAfter := 230, 22, 70, 40, 3, 40
+	nAlias := 24 // scenarios of 2-4 requests
 	if cfg.Thorough() {
 		nMain, nKnown, nUnsafe, nFieldless, nFresh, nAfter = 2400, 150, 500, 300, 10, 300 // one process: flush+search get slower as the store grows (7200 bodies took 17 min)
+		nAlias = 200
 	}
 	// prime c15h1..3: the first block of their segment holds an ordinary document
 	for ix := 5; ix <= 7; ix++ {
@@ -1394,6 +1695,9 @@ func main() {
 	// last: before the fix 2a1b376 such an index rewrote its first block at every later flush of the process
 	for k := 0; k < nFresh; k++ {
 		cases = append(cases, genFieldlessFirst(rFF, k)...)
+	}
+	for k := 0; k < nAlias; k++ {
+		cases = append(cases, genAliasScenario(rAl, k)...)
 	}
 	// last: if an earlier request poisons a pool, the poison stays in the process (these cases empty the pools themselves)
 	cases = append(cases, cornerAfter()...)
@@ -1423,8 +1727,39 @@ func main() {
 		shard++
 		coqCases = nil
 	}
+	// alias histories: one Coq case = the steps (alias definitions, bulk requests) of up to 40 consecutive
+	// scenarios; their names are fresh per scenario, so the model may start every file from the empty state
+	var aliasSteps []string
+	ashard, aScns, lastScn := 0, 0, 0
+	flushAlias := func() {
+		if len(aliasSteps) == 0 {
+			return
+		}
+		defs := "Definition steps : list astep := " + vhlib.CoqListNL(aliasSteps) + ".\n"
+		sum.WriteCaseFile(cfg.Out, fmt.Sprintf("cases_bulk_alias_%d", ashard), "From SigM Require Import Base Bulk BulkAlias BulkCheck.\n", defs, "check_alias steps a_init 0", len(aliasSteps))
+		ashard++
+		aliasSteps, aScns = nil, 0
+	}
 	t0 := time.Now()
 	for ci, c := range cases {
+		if n := len(c.Lines); n > 0 && c.Lines[n-1].Shape == "empty" {
+			c.FinalNL = true // an empty last line exists only through its newline
+		}
+		if c.Scn != 0 {
+			if c.Scn != lastScn {
+				dropScenario(lastScn)
+				if lastScn = c.Scn; aScns >= 40 {
+					flushAlias()
+				}
+				aScns++
+			}
+			for _, op := range c.AliasOps {
+				if !aliasDefined[op[0]] {
+					aliasSteps = append(aliasSteps, fmt.Sprintf("SAlias %d %d", op[0], op[1]))
+					sum.Count("alias/defined_before_request")
+				}
+			}
+		}
 		o, fs, texts, lens, herr := evaluate(c)
 		if herr != "" {
 			sum.HarnessError(fmt.Sprintf("case %d: %s", ci, herr))
@@ -1508,6 +1843,21 @@ func main() {
 			}
 			sum.Fail(f.class, f.detail, describe(rc, rtexts))
 		}
+		if c.Scn != 0 {
+			aliasSteps = append(aliasSteps, coqAliasStep(c, lens, o, 1000*(len(aliasSteps)+1)))
+			scnLog[c.Scn] = append(scnLog[c.Scn], map[string]interface{}{"alias_definitions_before_the_request": aliasOpsText(c.AliasOps), "body_lines": texts, "final_newline": c.FinalNL})
+			for _, a := range acts {
+				if a.Kind == "write" && a.HasDoc {
+					switch {
+					case aliasDefined[a.Idx]:
+						sum.Count("alias/write_through_alias")
+					case c.Scn != 0 && a.Idx >= 100:
+						sum.Count("alias/write_to_index_of_scenario")
+					}
+				}
+			}
+			continue
+		}
 		if len(c.Prelude) > 0 {
 			cc := coqCase(c, lens, o)
 			coqHistCases = append(coqHistCases, "("+coqHist(c.Prelude)+", "+cc[1:])
@@ -1521,8 +1871,10 @@ func main() {
 			flushShard()
 		}
 	}
+	dropScenario(lastScn)
 	flushShard()
 	flushHist()
+	flushAlias()
 	sum.Notes = append(sum.Notes, fmt.Sprintf("%d bodies through the real HandleBulkBody + flush + search in %.1fs", len(cases), time.Since(t0).Seconds()))
 	sum.Write(cfg.Out)
 }
